@@ -83,7 +83,10 @@ Bits1001 == [n |-> 4, b |-> <<144>>]
 
 OtherTd(td) == CASE td = "E" -> "A" [] td = "I" -> "E" [] td = "A" -> "I"
 
-NSeeds == 8
+NSeeds == 9
+TOctsU == [k |-> "OCTS", tags |-> <<>>, sz |-> NoSz]
+TBitsU == [k |-> "BITS", tags |-> <<>>, sz |-> NoSz, nb |-> <<>>]
+RefSz(n, lb, ub) == [k |-> "REF", tags |-> <<>>, name |-> n, sz |-> [f |-> "R", lb |-> lb, ub |-> ub, ubinf |-> FALSE, ext |-> FALSE]]
 
 Seed(k, td) ==
   CASE k = 1 ->   \* DEFAULT / OPTIONAL components of referenced BOOLEAN, INTEGER, ENUMERATED, BIT STRING; tagged references
@@ -148,6 +151,13 @@ Seed(k, td) ==
                                  Mand("c", TSeq(<< Mand("b", Ref("Bo")), Opt("g", TIntR(0, 7)) >>)) >>, TRUE,
                        << Add1(Opt("x", Ref("Bo"))) >>)),
        Asg("Top", TSeq(<< Mand("e", Ref("Ex")), Mand("f", Ref("Bo")) >>)) >>) >>]
+   [] k = 9 ->    \* SIZE written on a reference; the same component name and referenced type elsewhere without it
+    [mods |-> << Mod("M", td, <<>>, <<
+       Asg("Id", TOctsU), Asg("Fl", TBitsU),
+       Asg("Fx", TSeq(<< Mand("id", RefSz("Id", 4, 4)), Mand("fl", RefSz("Fl", 2, 5)) >>)),
+       Asg("Fr", TSeq(<< Mand("id", Ref("Id")), Mand("fl", Ref("Fl")), Opt("k", TBool) >>)),
+       Asg("Top", TSeq(<< Mand("a", Ref("Fr")), Mand("b", Ref("Fx")), Mand("id", Ref("Id")),
+                          Mand("l", ListOf(RefSz("Id", 0, 2))) >>)) >>) >>]
 
 ------------------------------------------------------------------------------
 (* positions inside a descriptor: paths of <<"r", i>> (root component i of a *)
@@ -287,9 +297,12 @@ InlinePlan(arr, mi, ai, p) ==
       nameOk(u) == IF Visible(mod, u.l) THEN QName(arr, mi, u.l) = u.q
                    ELSE \A u2 \in uses : u2.l = u.l => u2.q = u.q
       newImports == GroupImports({[from |-> u.from, sym |-> u.l] : u \in {x \in uses : ~Visible(mod, x.l)}})
-      U == [C EXCEPT !.tags = R.tags \o @]
+      U0 == [C EXCEPT !.tags = R.tags \o @]
+      \* a SIZE constraint written on the reference goes with the copy:  Id (SIZE (4))  ->  OCTET STRING (SIZE (4))
+      szOk == "sz" \in DOMAIN R => ("sz" \in DOMAIN C /\ C.sz.f = "N")
+      U == IF "sz" \in DOMAIN R /\ szOk THEN [U0 EXCEPT !.sz = R.sz] ELSE U0
       T2 == SetAt(T, p, U)
-  IN [U |-> U, T2 |-> T2, namesOk |-> \A u \in uses : nameOk(u), imports |-> Force(newImports),
+  IN [U |-> U, T2 |-> T2, namesOk |-> szOk /\ \A u \in uses : nameOk(u), imports |-> Force(newImports),
       before |-> ParentAt(T, p), after |-> ParentAt(T2, p), td |-> mod.td, fromTd |-> hmod.td]
 
 \* side conditions under which Inline keeps the meaning
